@@ -218,6 +218,10 @@ func (nt *NativeTable) FromNative(prog *ssa.Program, rv reflect.Value, st types.
 		if dt == nil {
 			panic(unsupported("native value of type %s has no SSA counterpart", rv.Type()))
 		}
+		if rv.Type().PkgPath() != "" {
+			// a named type of a native package (e.g. constant.int64Val): stays a native object
+			return Iface{T: dt, V: Host{V: rv.Interface()}}
+		}
 		return Iface{T: dt, V: nt.FromNative(prog, rv, dt)}
 	case *types.Pointer:
 		// typed nil pointers stay native values (some library methods are nil-safe)
